@@ -5,6 +5,7 @@ from ..frontend import AnalysisError, src, walk_no_nested
 from ..symx import run_paths
 from ..lin import Form, Lin
 from ..cfg import CFG
+import re
 from ..generic import guarded_refill_needs_empty
 
 MANIFEST = {
@@ -94,7 +95,10 @@ def update_forms(ctx, d1):
         li = p.events.index(loop_ev[0])
         before = p.events[:li]
         inside = [e for e in p.events[li:] if e.depth >= 1]
-        reacted = [e for e in before if e.kind == 'assign' and e.target == 'reacted']
+        lp0 = loop_ev[0].stmt
+        ext = src(lp0.iter.args[0]) if isinstance(lp0.iter, ast.Call) and src(lp0.iter.func) == 'zip' and len(lp0.iter.args) == 2 \
+            and isinstance(lp0.iter.args[0], ast.Name) else None
+        reacted = [e for e in before if e.kind == 'assign' and e.target == ext]
         okk = bool(reacted)
         why = ''
         if okk:
@@ -110,10 +114,19 @@ def update_forms(ctx, d1):
         # loop pairs extents with stoichiometry rows
         lp = loop_ev[0].stmt
         if okk and not (isinstance(lp.iter, ast.Call) and src(lp.iter.func) == 'zip'
-                        and [src(a) for a in lp.iter.args] == ['reacted', 'self._stoichiometry']):
+                        and [src(a) for a in lp.iter.args] == [ext, 'self._stoichiometry']):
             okk, why = False, 'loop does not zip extents with self._stoichiometry'
-        tgt = m if meth == '_reaction' else 'conversion'
         upd = [e for e in inside if e.kind == 'augname']
+        if meth == '_reaction':
+            tgt = m
+        else:
+            # the accumulator: a local initialised to 0*feed before the loop and returned afterwards
+            tgt = upd[0].target if upd else None
+            init_ = [e for e in before if e.kind == 'assign' and e.target == tgt]
+            if not (tgt and init_ and init_[0].value.is_zero() or (init_ and init_[0].value == Form.const(0) * Form.atom(m))) \
+                    or p.ret_node is None or src(p.ret_node.value) != tgt:
+                if not (tgt and init_ and src(init_[0].stmt.value).replace(' ', '') in ('0*%s' % m, '%s*0' % m) and p.ret_node is not None and src(p.ret_node.value) == tgt):
+                    okk, why = False, 'the conversion accumulator is not (0*feed ... returned)'
         if okk:
             a, b = (t.id for t in lp.target.elts)
             if not (len(upd) == 1 and upd[0].target == tgt and upd[0].op == 'Add'
@@ -155,13 +168,14 @@ def update_forms(ctx, d1):
     p = ps[0]
     upd = [e for e in p.events if e.kind == 'augname' and e.depth >= 1]
     m = f.params[1]
-    okk = len(upd) == 1 and upd[0].target == 'final' and p.ret is not None
+    okk = len(upd) == 1 and p.ret is not None
     if okk:
+        R_ = upd[0].target
         lp = [e for e in p.events if e.kind == 'loop'][0]
         i, j, k = (t.id for t in lp.stmt.target.elts)
-        # value uses final[i] (running), result final - material
-        okk = src(upd[0].stmt.value) == 'final[%s] * %s * %s' % (i, j, k) and src(p.ret_node.value) == 'final - %s' % m
-        init = [e for e in p.events if e.kind == 'assign' and e.target == 'final']
+        # value uses running[i], result running - material
+        okk = src(upd[0].stmt.value) == '%s[%s] * %s * %s' % (R_, i, j, k) and src(p.ret_node.value) == '%s - %s' % (R_, m)
+        init = [e for e in p.events if e.kind == 'assign' and e.target == R_]
         okk = okk and init and init[0].value.pretty() == '%s.copy()' % m
     if okk:
         d1.ok('SeriesReaction._conversion', 'runs the series on a copy and returns final - feed', f)
@@ -377,8 +391,9 @@ def basis_rule(ctx, d3):
         if "basis == 'wt'" in cs and any('tmo.Stream' in c for c in cs):
             r = p.ret_node.value
             found += 1
-            if isinstance(r, ast.Tuple) and len(r.elts) == 3 and src(r.elts[0]) == 'original.copy()' and src(r.elts[2]) == 'original' \
-                    and p.lin.env.get('original') == Form.atom('material.imass.data'):
+            rt = p.tup.get('<ret>') or []
+            if isinstance(r, ast.Tuple) and len(r.elts) == 3 and len(rt) == 3 and rt[0].pretty() == 'material.imass.data.copy()' \
+                    and rt[2].pretty() == 'material.imass.data':
                 d3.ok('as_material_array[wt]', 'returns (mass data copy, config, mass data view)', f, p.ret_node)
             else:
                 d3.fail('as_material_array[wt]', 'wt-route', 'weight basis does not route through a copy of the mass view with write-back target', f, p.ret_node)
@@ -472,16 +487,24 @@ def feasibility_rule(ctx, d5):
         cs = {src(t): taken for t, taken in p.conds if not isinstance(t, str)}
         if cs.get('tmo.reaction.CHECK_FEASIBILITY') is not True:
             continue
+        rc = {}
+        for tmap, taken, test in p.rconds:
+            rc[tmap.get(id(test), '')] = taken
+        big = None
+        hn = None
+        for t_, taken in rc.items():
+            if re.search(r'\.has_negatives\(\)$', t_):
+                hn = taken
+            if re.search(r'negative_index\(\)\]\.sum\(\) < -1/1000000000000\)$', t_) or re.search(r'\.sum\(\) < -1/1000000000000\)$', t_):
+                big = taken
         if p.raised:
-            if cs.get('negative_values.sum() < -1e-12') is True:
+            if big is True:
                 raised = True
             continue
-        hn = cs.get('has_negatives')
         if hn is False:
             n_ok += 1
             continue
-        big = cs.get('negative_values.sum() < -1e-12')
-        zeroed = any(e.kind == 'store' and isinstance(e.node, ast.Subscript) and src(e.node.slice) == 'negative_index'
+        zeroed = any(e.kind == 'store' and isinstance(e.node, ast.Subscript) and e.target.endswith('.negative_index()]')
                      and e.value.is_zero() for e in p.events)
         # Form for 0. is the zero form
         if hn is True and big is False and zeroed:
